@@ -867,8 +867,19 @@ pub async fn run_async(plan: &PlanA, opts: &ExecOpts) -> RunResult {
                             s.step,
                         ),
                         Some(l) => {
-                            if !(300..=86400).contains(&l) {
-                                res.violate("C10", "C10.lease_time_out_of_bounds", format!("advertised {} s", l), s.step);
+                            /* the configured ceiling (apply-max-lease of the policy chain serving
+                             * this client), 24 hours when none is configured; the floor is 5 minutes */
+                            let configured = conf.max_lease(&client.chaddr, lan);
+                            let max = configured.unwrap_or(86400);
+                            if let Some(c) = configured {
+                                res.probe("C10.max_lease_configured");
+                                if l as u64 == c {
+                                    res.probe("C10.clamped_at_configured_max");
+                                }
+                            }
+                            if (l as u64) < 300 || l as u64 > max.max(300) {
+                                let kind = if configured.is_some() && (300..=86400).contains(&l) { "C10.lease_time_exceeds_configured_max" } else { "C10.lease_time_out_of_bounds" };
+                                res.violate("C10", kind, format!("advertised {} s; configured maximum {:?}, default 86400, minimum 300", l, configured), s.step);
                             }
                             if l == 300 {
                                 res.probe("C10.clamped_at_min");
